@@ -31,6 +31,7 @@ def run(project, rep):
     rep.run(S.s_r6_constraints, schema, rep)
     rep.run(S.s_r6d_route_independent_constraints, schema, rep)
     rep.run(S.s_r6g_presence_tables, schema, rep)
+    rep.run(S.s_r6h_at_least_one_tables, schema, rep)
     rep.run(S.s_r6f_presence_not_truth, schema, rep)
     rep.run(S.s_r6e_all_equal_helper, schema, rep)
     from .. import rules_purity as E
